@@ -7,7 +7,7 @@ import verif
 META = {
     "level": "model_checking",
     "engine": "afc",
-    "technique": "TLA+ spec ArcStr (one action per atomic access of ArcStr::clone/drop: fetch_add, fetch_sub, fence, dealloc) model-checked with TLC; edge-covering schedules of its state graph replayed on real heap-backed aranya_policy_text::Text under the yield-point scheduler with a tracking allocator as memory-safety oracle (spec->impl conformance)",
+    "technique": "TLA+ spec ArcStr (one action per atomic access of ArcStr::clone/drop: fetch_add, fetch_sub, fence, dealloc) model-checked with TLC; edge-covering schedules of its state graph replayed on real heap-backed aranya_policy_text::Text under the yield-point scheduler with a tracking allocator as memory-safety oracle (spec->impl conformance); complemented by free-running races of the same operations on real unscheduled threads with the same oracle (stress, not exhaustive)",
     "text": "TLC checks the reference-counted string for every interleaving of threads that clone, read and drop handles until they own none - owner threads start with one handle, borrower threads clone and read through a shared reference to an owner's handle (so the same, possibly unique, handle is cloned concurrently): no access after the dealloc, at most one dealloc, the count equals the number of live handles, no dealloc while a handle is alive, exactly one dealloc at the end; the spec mutant 'free when fetch_sub returned 2' must be rejected. Every transition of the state graph is executed on real Text values sharing one heap allocation: yield points sit before fetch_add, fetch_sub, the fence and the dealloc; reads go through as_str(). The harness allocator poisons and quarantines the freed block. VIOLATION on: a yield point or read touching the freed block / text that does not read back, a second free, the block still allocated after every handle is dropped.",
     "note": "Bounds: quick 3 owner threads x (<=1 clone, <=1 read), 1 owner + 2 borrowers x (<=1 clone, <=1 read), and 2 threads, all exhaustive; thorough 3 threads x <=2 clones in TLC, schedules from 3 x (1,1). Additionally free-running races (2 and 3 real unscheduled threads, each clone/read/drop-clone/drop-own on one shared allocation, spin barrier with jitter, 3 s each quick / 15 s thorough) with the allocator and read oracle: a stress complement that reaches interleavings inside a split read-modify-write, not exhaustive. Memory orderings (Relaxed/Release/Acquire fence) are outside the model: sequentially consistent interleavings only (DESIGN §9). The valgrind run planned in DESIGN is not done (the scheduler switches stacks in user space). Trusts the allocator's quarantine.",
 }
